@@ -9,7 +9,7 @@ from . import pipeline as PL
 
 def check(ctx):
     C.extract(ctx, ["SyntaxKind"])
-    C.prove(ctx, ["Oq3.Props.C11Lex", "Oq3.Props.C11"])
+    C.prove(ctx, ["Oq3.Props.C11Lex", "Oq3.Props.C11", "Oq3.Props.C11Stages", "Oq3.Props.C11StagesTotal"])
     okb, log = C.cargo_build()
     if not okb:
         C.violation(ctx, "harness-build-failed", {"log": log[-3000:]}, no_input=True)
